@@ -36,7 +36,9 @@ def get_streams(prop):
     return {s.name: s for s in mod.STREAMS}, mod
 
 
-class CaseTimeout(Exception):
+class CaseTimeout(BaseException):
+    """raised by SIGALRM; a BaseException so that the `except Exception` clauses of the streams (which turn library exceptions
+    into failures) never mistake it for an exception raised by the library"""
     pass
 
 
@@ -65,6 +67,9 @@ def safe_run(stream, case, drv):
         except Exception:
             pass
         drv.__init__()
+        if isinstance(case, dict) and isinstance(case.get("n_jobs"), int) and case["n_jobs"] > 1:
+            # a joblib process pool that stalls on a loaded machine is not a verdict about the library
+            return core.skip(f"no result within {limit} s with n_jobs={case['n_jobs']} (process pool): not counted")
         return core.fail(f"no result within {limit} s (similar cases take milliseconds): the call did not terminate")
     except core.DriverError:
         raise
